@@ -12,6 +12,13 @@ W  ``if (t := E) <rest of test>:`` with the walrus as the first operand evaluate
 M  ``match s: case V: A; case V1 | V2: B; case _: C`` with value / singleton / or / wildcard patterns only (no captures,
    optional guards) and a side-effect free subject (name or attribute chain)  ->  ``if s == V: A elif s in (V1, V2): B else: C``
 
+Y  ``K is x`` / ``K == x`` with K a constant or an ENUM.MEMBER  ->  ``x is K`` / ``x == K``
+D  in test positions: ``not (not a or not b)`` -> ``a and b`` (and dually), ``not (x is None)`` -> ``x is not None``,
+   ``not (a in b)`` -> ``a not in b``
+E  ``if c: A else: B`` where A ends in return / raise / continue / break ->  ``if c: A`` ; ``B``  (elif chains included)
+I  ``if c: x = a else: x = b`` (one plain name, one statement each)  ->  ``x = a if c else b``
+R  ``return a if c else b``  ->  ``if c: return a`` ; ``return b``
+
 Line numbers of the surviving nodes are those of the original source.
 """
 import ast
@@ -186,6 +193,162 @@ class _Walrus(ast.NodeTransformer):
         return node
 
 
+def _constish(e):
+    if isinstance(e, ast.Constant):
+        return True
+    if isinstance(e, ast.Attribute):
+        b = e
+        while isinstance(b, ast.Attribute):
+            b = b.value
+        return isinstance(b, ast.Name) and b.id[:1].isupper() and e.attr.isupper()
+    return False
+
+
+class _Cmp(ast.NodeTransformer):
+    """Y and D"""
+    def visit_Compare(self, node):
+        self.generic_visit(node)
+        if len(node.ops) == 1 and isinstance(node.ops[0], (ast.Is, ast.IsNot, ast.Eq, ast.NotEq)) and \
+                _constish(node.left) and not _constish(node.comparators[0]) and \
+                (isinstance(node.ops[0], (ast.Is, ast.IsNot)) or
+                 (isinstance(node.left, ast.Constant) and isinstance(node.left.value, (str, int, bool, type(None))))):
+            return ast.copy_location(ast.Compare(left=node.comparators[0], ops=node.ops, comparators=[node.left]), node)
+        return node
+
+    def visit_UnaryOp(self, node):
+        if not isinstance(node.op, ast.Not):
+            self.generic_visit(node)
+            return node
+        o = node.operand
+        if isinstance(o, ast.UnaryOp) and isinstance(o.op, ast.Not) and isinstance(o.operand, ast.UnaryOp) and isinstance(o.operand.op, ast.Not):
+            # not not not x -> not x   (a double negation alone converts to bool and is kept)
+            return self.visit(o.operand)
+        if isinstance(o, ast.BoolOp) and not any(isinstance(x, ast.NamedExpr) for x in ast.walk(o)) and \
+                all(isinstance(v, ast.UnaryOp) and isinstance(v.op, ast.Not) for v in o.values):
+            # not (not a or not b) -> a and b   - exact when the operands are themselves negations (bool-valued): the value of
+            # the and/or is then a bool either way... but `a and b` yields an operand, so only inside a test position; the
+            # callers of this transformer apply it to test positions only
+            other = ast.And() if isinstance(o.op, ast.Or) else ast.Or()
+            return ast.copy_location(ast.BoolOp(op=other, values=[self.visit(v.operand) for v in o.values]), node)
+        if isinstance(o, ast.Compare) and len(o.ops) == 1:
+            flip = {ast.Is: ast.IsNot, ast.IsNot: ast.Is, ast.In: ast.NotIn, ast.NotIn: ast.In}
+            for k, v in flip.items():
+                if isinstance(o.ops[0], k):
+                    return ast.copy_location(ast.Compare(left=self.visit(o.left), ops=[v()], comparators=[self.visit(o.comparators[0])]), node)
+        self.generic_visit(node)
+        return node
+
+
+class _Tests(ast.NodeTransformer):
+    """applies _Cmp to the tests of if / while / assert / conditional expressions / comprehension filters (positions where only
+    the truth value of the expression matters)"""
+    def _t(self, e):
+        return _Cmp().visit(e)
+
+    def visit_If(self, node):
+        self.generic_visit(node)
+        node.test = self._t(node.test)
+        return node
+
+    def visit_While(self, node):
+        self.generic_visit(node)
+        node.test = self._t(node.test)
+        return node
+
+    def visit_IfExp(self, node):
+        self.generic_visit(node)
+        node.test = self._t(node.test)
+        return node
+
+    def visit_Assert(self, node):
+        self.generic_visit(node)
+        node.test = self._t(node.test)
+        return node
+
+    def visit_comprehension(self, node):
+        self.generic_visit(node)
+        node.ifs = [self._t(c) for c in node.ifs]
+        return node
+
+
+class _Yoda(ast.NodeTransformer):
+    """Y everywhere (a comparison yields the same value with its operands swapped when one of them is a constant / enum member)"""
+    def visit_Compare(self, node):
+        self.generic_visit(node)
+        if len(node.ops) == 1 and isinstance(node.ops[0], (ast.Is, ast.IsNot, ast.Eq, ast.NotEq)) and \
+                _constish(node.left) and not _constish(node.comparators[0]) and \
+                (isinstance(node.ops[0], (ast.Is, ast.IsNot)) or
+                 (isinstance(node.left, ast.Constant) and isinstance(node.left.value, (str, int, bool, type(None))))):
+            return ast.copy_location(ast.Compare(left=node.comparators[0], ops=node.ops, comparators=[node.left]), node)
+        return node
+
+
+_ABRUPT = (ast.Return, ast.Raise, ast.Continue, ast.Break)
+
+
+class _ElseDrop(ast.NodeTransformer):
+    """E"""
+    def _block(self, stmts):
+        out = []
+        for st in stmts:
+            if isinstance(st, ast.If) and st.orelse and st.body and isinstance(st.body[-1], _ABRUPT):
+                rest = st.orelse
+                st.orelse = []
+                out.append(st)
+                out.extend(self._block(rest))
+            else:
+                out.append(st)
+        return out
+
+    def generic_visit(self, node):
+        super().generic_visit(node)
+        for field in ('body', 'orelse', 'finalbody'):
+            v = getattr(node, field, None)
+            if isinstance(v, list) and v and isinstance(v[0], ast.stmt):
+                setattr(node, field, self._block(v))
+        return node
+
+
+class _MergeIfAssign(ast.NodeTransformer):
+    """I"""
+    def visit_If(self, node):
+        self.generic_visit(node)
+        if len(node.body) == 1 and len(node.orelse) == 1:
+            a, b = node.body[0], node.orelse[0]
+            if isinstance(a, ast.Assign) and isinstance(b, ast.Assign) and len(a.targets) == 1 and len(b.targets) == 1 and \
+                    isinstance(a.targets[0], ast.Name) and isinstance(b.targets[0], ast.Name) and a.targets[0].id == b.targets[0].id and \
+                    not any(isinstance(x, (ast.NamedExpr, ast.Yield, ast.YieldFrom, ast.Await)) for x in ast.walk(node)):
+                new = ast.Assign(targets=[a.targets[0]], value=ast.IfExp(test=node.test, body=a.value, orelse=b.value))
+                return ast.copy_location(new, node)
+        return node
+
+
+class _ReturnIfExp(ast.NodeTransformer):
+    """R"""
+    def _block(self, stmts):
+        out = []
+        for st in stmts:
+            if isinstance(st, ast.Return) and isinstance(st.value, ast.IfExp) and \
+                    not any(isinstance(x, (ast.NamedExpr, ast.Yield, ast.YieldFrom, ast.Await)) for x in ast.walk(st.value)):
+                g = ast.copy_location(ast.If(test=st.value.test, body=[ast.copy_location(ast.Return(value=st.value.body), st)], orelse=[]), st)
+                out.append(g)
+                out.extend(self._block([ast.copy_location(ast.Return(value=st.value.orelse), st)]))
+            else:
+                out.append(st)
+        return out
+
+    def generic_visit(self, node):
+        super().generic_visit(node)
+        for field in ('body', 'orelse', 'finalbody'):
+            v = getattr(node, field, None)
+            if isinstance(v, list) and v and isinstance(v[0], ast.stmt):
+                setattr(node, field, self._block(v))
+        return node
+
+    def visit_Lambda(self, node):
+        return node
+
+
 def prenormalize(tree):
     if hasattr(ast, 'Match'):
         _Match().visit(tree)
@@ -197,6 +360,12 @@ def prenormalize(tree):
             fn.body = b._fold(fn.body)
         for st in fn.body:
             b.visit(st)
+    _Yoda().visit(tree)
+    _Tests().visit(tree)
+    _MergeIfAssign().visit(tree)
+    _ReturnIfExp().visit(tree)
+    _ElseDrop().visit(tree)
     _Shape().visit(tree)
+    _ElseDrop().visit(tree)
     ast.fix_missing_locations(tree)
     return tree
